@@ -3,6 +3,7 @@
   `alloc`, …) never write a byte: existing chunks keep base, size and data; new chunks are appended.
 -/
 import BumpProof.Lemmas.MemWrite
+import BumpProof.Lemmas.AlignChunk
 
 set_option linter.unusedSimpArgs false
 
@@ -315,6 +316,12 @@ theorem alignGuardDrop_memOf {cfg : Cfg} {s s' : State} {n : Nat}
     (h : alignGuardDrop cfg s n = .ok s') : memOf s' = memOf s := by
   unfold alignGuardDrop at h
   split_ok h with first | rfl | exact memOf_setPos s _ _
+
+theorem alignChunkAt_memOf {cfg : Cfg} {s s' : State} {n : Nat} {st : Cur}
+    (h : alignChunkAt cfg s n st = .ok s') : memOf s' = memOf s := by
+  rcases alignChunkAt_cases h with rfl | ⟨j, c, p, _, _, _, _, rfl⟩
+  · rfl
+  · exact memOf_setPos s _ _
 
 theorem reserve_memExt {cfg : Cfg} {s s' : State} {n : Nat} {r : Except AErr Unit}
     (h : reserve cfg s n = .ok (s', r)) : MemExt s s' := by
